@@ -135,6 +135,7 @@ def run(ctx):
     kv = info["kvp"]
     pend = info["pending"]
     pe = PredEval(prog)
+    c12.MAP_EVAL["pe"] = pe
     cls = classes.class_fns(prog)
     c12.mark_predicates(prog)
     feas = [s for s in S if kvp.feasible(s, pe, cls)]
